@@ -618,3 +618,191 @@ Proof.
   rewrite Hps. rewrite (enc_header_keeps _ _ _ _ _ "point_size" H0) by reflexivity.
   repeat split; try assumption; apply B8.
 Qed.
+
+(* ------------------------------------------------------------------------------------ *)
+(* the two kinds of crash images                                                         *)
+(* ------------------------------------------------------------------------------------ *)
+Definition hdr_facts (b0 b1 : list Z) (m ps n : Z) : Prop :=
+  (227 <= length b0)%nat /\ (cntp m + cntw m <= length b0)%nat
+  /\ le_dec (firstn 4 (skipn 96 b0)) = len b0
+  /\ le_dec (firstn 1 (skipn 25 b0)) = m
+  /\ le_dec (firstn 2 (skipn 105 b0)) = ps
+  /\ firstn (cntw m) (skipn (cntp m) b0) = le_enc (cntw m) 0
+  /\ length b1 = length b0 /\ firstn 107 b1 = firstn 107 b0
+  /\ firstn (cntw m) (skipn (cntp m) b1) = le_enc (cntw m) n
+  /\ 0 <= n < 256 ^ Z.of_nat (cntw m).
+
+(* (A) any prefix of: the initial header followed by anything.  The count reads 0. *)
+Lemma safeA b0 b1 m ps recs tail n :
+  hdr_facts b0 b1 m ps (len recs) -> recs_ok ps recs = true -> 0 < ps ->
+  reads_prefix_or_fails (firstn n (b0 ++ tail)) recs.
+Proof.
+  intros (F1 & F2 & F3 & F4 & F5 & F6 & _) Hrecs Hps.
+  destruct (le_lt_dec 227 n) as [Hn|Hn].
+  - assert (firstn (length b0) (firstn n (b0 ++ tail)) = firstn (Nat.min (length b0) n) b0) as Est.
+    { rewrite firstn_firstn. apply firstn_app_le. lia. }
+    assert (count_raw m (firstn (length b0) (firstn n (b0 ++ tail))) = 0) as Ec.
+    { rewrite Est. unfold count_raw. rewrite fs_firstn_min.
+      set (i := Nat.min (cntw m) (Nat.min (length b0) n - cntp m)).
+      replace i with (Nat.min i (cntw m)) by (unfold i; lia).
+      rewrite <- firstn_firstn, F6, le_enc_zero. apply le_dec_zeros_prefix. }
+    apply (read_core _ b0 m ps recs); try assumption.
+    + rewrite firstn_firstn. replace (Nat.min 107 n) with 107%nat by lia. apply firstn_app_le. lia.
+    + rewrite Ec. pose proof (len_nonneg recs). lia.
+    + rewrite Ec. lia.
+  - unfold reads_prefix_or_fails, read_file.
+    destruct (dec_header (firstn n (b0 ++ tail)) true) as [rh|e] eqn:Eh; [|exact I].
+    destruct (dec_header_inv _ _ _ Eh) as [Hl _]. rewrite firstn_length in Hl. lia.
+Qed.
+
+(* (B) the final header partially written over the initial one, all the points present *)
+Lemma safeB b0 b1 m ps recs tail j :
+  hdr_facts b0 b1 m ps (len recs) -> recs_ok ps recs = true -> 0 < ps -> (j <= length b0)%nat ->
+  reads_prefix_or_fails (firstn j b1 ++ skipn j b0 ++ concat recs ++ tail) recs.
+Proof.
+  intros (F1 & F2 & F3 & F4 & F5 & F6 & F7 & F8 & F9 & F10) Hrecs Hps Hj.
+  rewrite app_assoc. set (mix := firstn j b1 ++ skipn j b0).
+  assert (length mix = length b0) as Lmix by (unfold mix; rewrite mix_length; lia).
+  assert (firstn (length b0) (mix ++ concat recs ++ tail) = mix) as Est by now apply firstn_app_exact.
+  assert (0 <= count_raw m mix <= len recs) as Hc.
+  { unfold count_raw, mix. rewrite mix_field by exact F7. rewrite F6, F9.
+    destruct (le_lt_dec (j - cntp m) (cntw m)) as [Hle|Hgt].
+    - now apply torn_le_zero.
+    - rewrite firstn_all2 by (rewrite le_enc_length; lia).
+      rewrite skipn_all2 by (rewrite le_enc_length; lia).
+      rewrite app_nil_r, le_dec_enc by exact F10. lia. }
+  apply (read_core _ b0 m ps recs); try assumption.
+  - rewrite firstn_app_le by lia. change (firstn 107 mix) with (firstn 107 (skipn 0 mix)).
+    unfold mix. rewrite mix_field by exact F7. rewrite Nat.sub_0_r.
+    change (skipn 0 b1) with b1. change (skipn 0 b0) with b0. rewrite F8. apply firstn_skipn.
+  - rewrite Est. exact Hc.
+  - intros _. exists tail. now apply skipn_app_exact.
+Qed.
+
+(* ------------------------------------------------------------------------------------ *)
+(* the write trace                                                                       *)
+(* ------------------------------------------------------------------------------------ *)
+Definition crash_from (f : list Z) (trace : list (Z * list Z)) (k j : nat) : list Z :=
+  let done := fold_left apply_write (firstn k trace) f in
+  match nth_error trace k with
+  | Some (pos, bs) => write_at done pos (firstn j bs)
+  | None => done
+  end.
+
+Lemma crash_image_from trace k j : crash_image trace k j = crash_from [] trace k j.
+Proof. reflexivity. Qed.
+Lemma crash_from_nil f k j : crash_from f [] k j = f.
+Proof. destruct k; reflexivity. Qed.
+Lemma crash_from_0 f pos bs t j : crash_from f ((pos, bs) :: t) 0 j = write_at f pos (firstn j bs).
+Proof. reflexivity. Qed.
+Lemma crash_from_S f w t k j : crash_from f (w :: t) (S k) j = crash_from (apply_write f w) t k j.
+Proof. reflexivity. Qed.
+
+Fixpoint cw (s : Z) (pts : list (list Z)) : list (Z * list Z) :=
+  match pts with [] => [] | p :: ps => (s, p) :: cw (s + len p) ps end.
+Fixpoint sums (s : Z) (pts : list (list Z)) : list Z :=
+  match pts with [] => [] | p :: ps => (s + len p) :: sums (s + len p) ps end.
+
+Lemma starts_eq : forall (pts : list (list Z)) acc,
+  fold_left (fun acc p => acc ++ [last acc 0 + len p]) pts acc = acc ++ sums (last acc 0) pts.
+Proof.
+  induction pts as [|p ps IH]; intros acc; cbn [fold_left sums].
+  - now rewrite app_nil_r.
+  - rewrite IH, last_last, <- app_assoc. reflexivity.
+Qed.
+
+Lemma combine_cw : forall pts s, combine (s :: sums s pts) pts = cw s pts.
+Proof.
+  induction pts as [|p ps IH]; intros s; [reflexivity|].
+  cbn [sums combine cw]. f_equal. apply IH.
+Qed.
+
+Lemma concat_nonempty (chunks : list (list (list Z))) :
+  concat (map (fun c => concat c) (filter (fun c => match c with [] => false | _ => true end) chunks))
+  = concat (concat chunks).
+Proof.
+  induction chunks as [|c cs IH]; [reflexivity|].
+  cbn [filter concat]. destruct c as [|r c].
+  - exact IH.
+  - cbn [map concat]. rewrite IH. now rewrite concat_app.
+Qed.
+
+(* the appending writes: either the image is the old file plus something, or all of them are done *)
+Lemma crash_appends : forall pts f rest k j,
+  (exists t, crash_from f (cw (len f) pts ++ rest) k j = f ++ t)
+  \/ ((length pts <= k)%nat
+      /\ crash_from f (cw (len f) pts ++ rest) k j = crash_from (f ++ concat pts) rest (k - length pts) j).
+Proof.
+  induction pts as [|p ps IH]; intros f rest k j.
+  - right. cbn [cw app length concat]. rewrite app_nil_r, Nat.sub_0_r. split; [lia|reflexivity].
+  - cbn [cw app]. destruct k as [|k].
+    + left. rewrite crash_from_0, write_at_end. eauto.
+    + rewrite crash_from_S. unfold apply_write. cbn [fst snd]. rewrite write_at_end.
+      rewrite <- len_app.
+      destruct (IH (f ++ p) rest k j) as [[t Ht]|[Hk Ht]].
+      * left. exists (p ++ t). rewrite Ht. now rewrite app_assoc.
+      * right. split; [cbn [length]; lia|]. rewrite Ht. cbn [concat length Nat.sub].
+        now rewrite app_assoc.
+Qed.
+
+(* the rewrite of the header at position 0, possibly torn, then nothing more *)
+Lemma last_write b0 b1 m ps recs tail j :
+  hdr_facts b0 b1 m ps (len recs) -> recs_ok ps recs = true -> 0 < ps ->
+  reads_prefix_or_fails (write_at (b0 ++ concat recs ++ tail) 0 (firstn j b1)) recs.
+Proof.
+  intros HF Hrecs Hps. pose proof HF as (_ & _ & _ & _ & _ & _ & F7 & _).
+  assert (firstn j b1 = firstn (Nat.min j (length b1)) b1) as ->.
+  { rewrite <- firstn_firstn, firstn_all. reflexivity. }
+  rewrite write_at_torn by lia.
+  apply (safeB b0 b1 m ps); try assumption. lia.
+Qed.
+
+Lemma last_step b0 b1 m ps recs tail k j :
+  hdr_facts b0 b1 m ps (len recs) -> recs_ok ps recs = true -> 0 < ps ->
+  reads_prefix_or_fails (crash_from (b0 ++ concat recs ++ tail) [(0, b1)] k j) recs.
+Proof.
+  intros HF Hrecs Hps. destruct k as [|k].
+  - rewrite crash_from_0. now apply (last_write b0 b1 m ps).
+  - rewrite crash_from_S, crash_from_nil. unfold apply_write. cbn [fst snd].
+    rewrite <- (firstn_all b1) at 1. now apply (last_write b0 b1 m ps).
+Qed.
+
+(* C19, one-shot and chunked writer *)
+Theorem crash_safe : forall ap h vl fmt chunks evl hb0 eb h' hb1 k j,
+  enc_header (with_stats h stats0) vl false = Ok hb0 ->
+  enc_vlrs true evl = Ok eb ->
+  final_hdr ap h vl fmt (concat chunks) evl = Ok h' ->
+  enc_header (with_stats (fst hb0) (stats_of_header h')) vl true = Ok hb1 ->
+  wf_header h' vl = true -> wf_header (fst hb0) vl = true -> forallb (wf_vlr true) evl = true ->
+  recs_ok (aint h' "point_size") (concat chunks) = true -> 0 < aint h' "point_size" ->
+  reads_prefix_or_fails (crash_image (write_trace (snd hb0) chunks eb (snd hb1)) k j) (concat chunks).
+Proof.
+  intros ap h vl fmt chunks evl [h0 b0] eb h' [h1 b1] k j H0 _ Hf H1 _ _ _ Hrecs Hps.
+  cbn [fst snd] in *.
+  destruct (session_facts _ _ _ _ _ _ _ _ _ _ _ H0 Hf H1) as (m & HF).
+  fold (hdr_facts b0 b1 m (aint h' "point_size") (len (concat chunks))) in HF.
+  set (ps := aint h' "point_size") in *. set (recs := concat chunks) in *.
+  unfold write_trace. cbv zeta. rewrite concat_nonempty. fold recs.
+  set (pts := map (fun c => concat c) (filter (fun c => match c with [] => false | _ => true end) chunks)).
+  assert (concat pts = concat recs) as Hpts by apply concat_nonempty.
+  rewrite starts_eq. cbn [last app]. rewrite combine_cw.
+  rewrite crash_image_from.
+  destruct k as [|k].
+  - rewrite crash_from_0, write_at_nil.
+    pose proof (safeA b0 b1 m ps recs [] j HF Hrecs Hps) as HA. now rewrite app_nil_r in HA.
+  - rewrite crash_from_S. unfold apply_write at 1. cbn [fst snd]. rewrite write_at_nil.
+    match goal with |- context [cw (len b0) pts ++ ?r] => set (rest := r) end.
+    destruct (crash_appends pts b0 rest k j) as [[t Ht]|[Hk Ht]]; rewrite Ht.
+    + rewrite <- (firstn_all (b0 ++ t)). now apply (safeA b0 b1 m ps).
+    + rewrite Hpts. unfold rest. clear Ht rest.
+      destruct eb as [|e eb].
+      * cbn [app]. rewrite <- (app_nil_r (concat recs)). now apply (last_step b0 b1 m ps).
+      * cbn [app]. set (ebs := e :: eb).
+        destruct (k - length pts)%nat as [|k'].
+        -- rewrite crash_from_0. rewrite <- Hpts, <- len_app, Hpts, write_at_end.
+           rewrite <- app_assoc, <- (firstn_all (b0 ++ _)). now apply (safeA b0 b1 m ps).
+        -- rewrite crash_from_S. unfold apply_write at 1. cbn [fst snd].
+           rewrite <- Hpts, <- len_app, Hpts, write_at_end, <- app_assoc.
+           now apply (last_step b0 b1 m ps).
+Qed.
+Print Assumptions crash_safe.
